@@ -275,7 +275,7 @@ def obligations(tier):
     q = tier == "quick"
     depth = 3 if q else 4
     obs = []
-    firsts = [0, 4, 5, 6, 9]          # both tiers: thorough differs by depth 3 and one obligation per second operation
+    firsts = [0, 4, 5, 6, 9] if q else [0, 4, 9]     # thorough: depth 3, one obligation per second operation
     n = len(OPS)
     parts = [(0, 9), (9, 18), (18, n)] if q else [(i, i + 1) for i in range(n)]
     for first in firsts:
